@@ -54,6 +54,16 @@ static int check(const char* name, Prior& prior, const shared_ptr<target_type>& 
           image[z][y][x] = org + h; prior.compute_gradient(*gp, image);
           image[z][y][x] = org - h; prior.compute_gradient(*gm, image);
           image[z][y][x] = org;
+          // the single-row API: compute_Hessian gives the row of this voxel = (symmetric Hessian) the Hessian times its unit vector
+          {
+            shared_ptr<target_type> row(image.get_empty_copy());
+            row->fill(0.F);
+            prior.compute_Hessian(*row, make_coordinate(z, y, x), image);
+            target_type::full_iterator irow = row->begin_all(), ih2 = Hd->begin_all();
+            for (; ih2 != Hd->end_all(); ++ih2, ++irow)
+              if (std::fabs((double)*irow - (double)*ih2) > tol_rel * scale)
+                { std::printf("CONFIRMED %s: compute_Hessian row of voxel (z %d, y %d, x %d) differs from the Hessian times its unit vector: %g vs %g\n", name, z, y, x, (double)*irow, (double)*ih2); return 1; }
+          }
           target_type::full_iterator ip = gp->begin_all(), im_ = gm->begin_all(), ih = Hd->begin_all();
           for (; ih != Hd->end_all(); ++ih, ++ip, ++im_)
             {
@@ -89,9 +99,23 @@ static int configs(const char* cls, Prior (*mk)(bool), double tol, float h)
             w[dz][dy][dx] = (dz == 0 && dy == 0 && dx == 0) ? 0.F : 1.F / (1 + dz * dz + dy * dy + dx * dx);
           prior.set_weights(w);
         }
-      const std::string name = std::string(cls) + " [" + c.what + "]";
-      const int rc = check(name.c_str(), prior, make_image(c.range, ++n), tol, h);
-      if (rc) return rc;
+      for (int with_kappa = 0; with_kappa < 2; ++with_kappa)
+        {
+          shared_ptr<target_type> image = make_image(c.range, ++n);
+          if (with_kappa)
+            {
+              // a kappa image that varies along every axis
+              shared_ptr<target_type> kappa(image->get_empty_copy());
+              for (int z = kappa->get_min_index(); z <= kappa->get_max_index(); ++z)
+                for (int y = (*kappa)[z].get_min_index(); y <= (*kappa)[z].get_max_index(); ++y)
+                  for (int x = (*kappa)[z][y].get_min_index(); x <= (*kappa)[z][y].get_max_index(); ++x)
+                    (*kappa)[z][y][x] = 1.F + 0.25F * (x - (*kappa)[z][y].get_min_index()) + 0.125F * (y - (*kappa)[z].get_min_index()) + 0.0625F * (z - kappa->get_min_index());
+              prior.set_kappa_sptr(kappa);
+            }
+          const std::string name = std::string(cls) + " [" + c.what + (with_kappa ? ", kappa varying along x, y, z]" : "]");
+          const int rc = check(name.c_str(), prior, image, tol, h);
+          if (rc) return rc;
+        }
     }
   return 0;
 }
